@@ -11,6 +11,7 @@ extern "C" {
 
 /* set while a library API function is executing (allocation accounting) */
 extern volatile int sh_in_library;
+extern volatile int sh_call_ticks;   /* reset when an outermost API call starts; counted by the engines' CPU watchdog */
 
 /* codec ids as in of_codec_id_t */
 enum { SH_RS8 = 1, SH_RSM = 2, SH_LDPC = 3, SH_P2D = 5 };
